@@ -93,7 +93,7 @@ def bmc_cubes(fn, name, K, alphabet, depth, tmo, props, nchoices=2):
         label = ",".join(qsim.OPNAMES[o] for o in pre)
         cubes.append(Cube(f"{name} k={K} [{label}]", fn, bmc_params(K, nchoices, pre),
                           {"K": K, "alphabet": tuple(alphabet), "props": tuple(props), "prefix": tuple(pre), "nchoices": nchoices},
-                          timeout=tmo, per_path_timeout=30, group=name))
+                          timeout=tmo, per_path_timeout=30, group=name, allow_empty=True))
     return cubes
 
 
@@ -218,7 +218,7 @@ def nf_cubes(fn, name, J, S, alphabet, tmo, props, stage_set=None, nchoices=2):
         label = "+".join(STAGES[x] for x in st)
         cubes.append(Cube(f"{name} [{label}] +{S} ops", fn, nf_params(J, S, nchoices),
                           {"stages": tuple(st), "S": S, "alphabet": tuple(alphabet), "props": tuple(props), "nchoices": nchoices},
-                          timeout=tmo, per_path_timeout=30, group=name))
+                          timeout=tmo, per_path_timeout=30, group=name, allow_empty=True))
     return cubes
 
 
@@ -353,5 +353,5 @@ def with_restore(cubes, positions):
             f = dict(c.fixed)
             f["restore_at"] = p
             out.append(Cube(c.name + f" restart@{p}", c.fn, c.params, f, timeout=c.timeout,
-                            per_path_timeout=c.per_path_timeout, group=c.group))
+                            per_path_timeout=c.per_path_timeout, group=c.group, allow_empty=True))
     return out
